@@ -205,6 +205,7 @@ func c03(c *Ctx) {
 		r.Check("C03.checksum", "ip_checksum", "a complement of the accumulator exists", "-", false, "no ~ found in the checksum helper")
 	}
 	px := c03MsgType(c, tu, fn)
+	c03CompleteKey(c, tu, x)
 	c03Go(c, px)
 	r.Note("Not decided: byte-for-byte equivalence of the two implementations over all frames and cache states, option ordering for arbitrary request layouts, arithmetic of the checksum beyond the fold range, UDP checksum (zeroed), broadcast/unicast choice. Layout and byte order of the cache structs are C06's; packet bounds C07's; the acquire/release matrix of cache entries is also covered by C16.")
 }
@@ -768,4 +769,53 @@ func c03Clock(c *Ctx, x *cexec.Exec) {
 	}
 	r.Check("C03.clock", "dhcp_fastpath_prog", "lease_expiry is compared in the time domain it is written in", cPos, same,
 		fmt.Sprintf("the control plane writes %s (%s) but the program compares the field with %s: boot-relative seconds never exceed an epoch timestamp, so the in-kernel expiry test is dead and an entry userspace fails to delete is answered from for ever", depList(goDomain), goPos, depList(cDomain)))
+}
+
+// c03CompleteKey (rule C03.completeKey): the fast path identifies a subscriber by circuit-id only when the whole
+// identifier fits the fixed-size key; a longer identifier must not be looked up by its prefix.
+// Decided on the merge-mode run: at every non-zero return of extract_circuit_id_fixed, every packet byte that the
+// helper compares with the key size (the identifier's length) is bounded by the key size in the state at that return.
+func c03CompleteKey(c *Ctx, tu *cfront.TU, x *cexec.Exec) {
+	r := c.R
+	r.Rule("C03.completeKey", "extract_circuit_id_fixed reports a circuit-id as found only where the identifier's length byte is known to be at most the key size: a longer identifier is never looked up by its 32-byte prefix (two subscribers sharing a prefix would be answered with each other's address)", 1)
+	keyLen, err := tu.SizeOfStr("struct circuit_id_key")
+	if err != nil {
+		r.Fatalf("C03: %v", err)
+		return
+	}
+	// length symbols: packet-loaded symbols compared with the key size inside the helper
+	type symT = interface{}
+	lens := map[string]cexec.Val{}
+	for _, ev := range x.Events {
+		if ev.Kind == "cmpk" && ev.Func == "extract_circuit_id_fixed" && ev.Off == keyLen && strings.HasPrefix(ev.Val.Org, "pkt:") {
+			lens[ev.Val.String()+fmt.Sprint(ev.Val.L)] = ev.Val
+		}
+	}
+	n, bad := 0, 0
+	where := "-"
+	for _, ev := range x.Events {
+		if ev.Kind != "fnreturn" || ev.Name != "extract_circuit_id_fixed" {
+			continue
+		}
+		if v, isC := ev.Val.IsConst(); isC && v == 0 {
+			continue
+		}
+		n++
+		// the length symbol relevant for this return: the one refined in this state (its interval differs from a byte's full range)
+		okRet := false
+		for _, lv := range lens {
+			a, _ := lv.SingleSym()
+			iv := ev.St.SymRange(a)
+			if iv.Hi <= keyLen && iv.Lo >= 1 {
+				okRet = true
+			}
+		}
+		if !okRet {
+			bad++
+			where = ev.Node.Pos()
+		}
+	}
+	r.Count("circuit_id_success_returns", n)
+	r.Check("C03.completeKey", "extract_circuit_id_fixed", "found only with length <= key size", where, n > 0 && bad == 0 && len(lens) > 0,
+		fmt.Sprintf("%d of %d success returns are reached without the identifier's length byte being bounded by %d: the key then holds only a prefix of the identifier, and the entry of whichever subscriber with that prefix was acknowledged last answers for all of them", bad, n, keyLen))
 }
